@@ -196,6 +196,35 @@ func c16Round2(c *Ctx) {
 	if n < 2 {
 		c.R.Fail("standard-query-includes-deprecated: %d fields/enumValues selections", n)
 	}
+	// the TypeRef fragment unwraps far enough: the reference query of graphql-js nests ofType seven levels deep, which is what
+	// a type such as [[[Int!]!]!]! needs to reach its named type
+	c.R.Rule("standard-query-typeref-depth", "introspection.Query: some selection nests `ofType` at least 7 levels deep (the depth of the reference introspection query; fewer levels cut off wrapped types before their named type)", 1)
+	depth := 0
+	var nest func(ss gast.SelectionSet, d int)
+	nest = func(ss gast.SelectionSet, d int) {
+		for _, s := range ss {
+			switch x := s.(type) {
+			case *gast.Field:
+				if x.Name == "ofType" {
+					if d+1 > depth {
+						depth = d + 1
+					}
+					nest(x.SelectionSet, d+1)
+				} else {
+					nest(x.SelectionSet, d)
+				}
+			case *gast.InlineFragment:
+				nest(x.SelectionSet, d)
+			}
+		}
+	}
+	for _, op := range doc.Operations {
+		nest(op.SelectionSet, 0)
+	}
+	for _, fr := range doc.Fragments {
+		nest(fr.SelectionSet, 0)
+	}
+	c.R.Check(depth >= 7, "introspection.Query/ofType-depth", "graphql/introspection/query.go", sprintf("ofType nested %d deep", depth), sprintf("the standard introspection query unwraps only %d levels of ofType: a field of type [[[Int!]!]!]! is described without its named type, so the schema cannot be rebuilt", depth))
 }
 
 // c09Round2: header names are compared case-insensitively; the Accept header is split at commas.
